@@ -407,7 +407,9 @@ def main(argv=None):
 
         def still(spec, _clause=clause, _sub=sub):
             kind, res = eval_case(_sub, spec)
-            return kind == 'fail' and res.clause == _clause
+            # a shrunk spec must stay an UNLISTED violation: shrinking into the shape of a known finding would
+            # replace the reproduction of a new defect by one of a listed defect
+            return kind == 'fail' and res.clause == _clause and not any(matches_known(mod, e, _sub.name, spec, res.clause) for e in known)
 
         tshr = time.time()
         try:
